@@ -22,7 +22,8 @@ Definition symtab := list (string * Z).
 Inductive emit_res :=
 | Bytes (bs : list byte)          (* emitted silently *)
 | BytesDiag (bs : list byte)      (* emitted (possibly nothing) and an error-level diagnostic printed *)
-| EPanic.                         (* runtime panic *)
+| EPanic                          (* runtime panic *)
+| EUnmod.                         (* statement outside the modelled fragment *)
 
 Record encoder := {
   (* pass-1 size estimate; None = the handler printed an "Error ..." line and returned
@@ -31,7 +32,12 @@ Record encoder := {
   (* does pass 1 hand the statement to codegen (false: ocode line rejected by Emit, silently) *)
   enc_kind_ok : string -> bool;
   (* codegen: final mode, final symbol table, mnemonic, evaluated operands *)
-  enc_emit : mode -> symtab -> string -> list exp -> emit_res
+  enc_emit : mode -> symtab -> string -> list exp -> emit_res;
+  (* the handler printed an "Error ..." line although it went on (IN, PUSH, POP size fallbacks) *)
+  enc_diag : mode -> string -> list exp -> bool;
+  (* gosk accepts the statement in a way the model does not cover: the whole program is then
+     outside the correspondence (never counted as agreement) *)
+  enc_unmodelled : mode -> string -> list exp -> bool
 }.
 
 Inductive jtarget := JLabel (s : string) | JNum (z : Z) | JText.
@@ -46,7 +52,8 @@ Inductive ocode :=
 | ONoParam (name : string)
 | OInt (v : option Z)
 | ORet
-| OInstr (mn : string) (ops : list exp).
+| OInstr (mn : string) (ops : list exp)
+| OUnmodelled.
 
 Record p1state := {
   loc : Z;                         (* int32 *)
@@ -269,9 +276,10 @@ Definition do_mnemonic (s : p1state) (op : string) (ops : list exp) : p1state :=
       else if String.eqb h "processINT" then do_int s ops
       else
         (* table-driven and remaining hand-written instruction handlers *)
+        if enc_unmodelled E (bmode s) op ops then push_ocode s OUnmodelled else
         match enc_est E (bmode s) op ops with
         | None => set_diag s
-        | Some n => let s1 := add_loc s n in
+        | Some n => let s1 := add_loc (with_diag s (enc_diag E (bmode s) op ops)) n in
                     if enc_kind_ok E op then push_ocode s1 (OInstr op ops) else s1
         end
   end.
@@ -370,9 +378,10 @@ Definition gen_ocode (m : mode) (st : symtab) (dol : Z) (len : Z) (o : ocode) : 
               end
   | ORet => Bytes [195]
   | OInstr mn ops => enc_emit E m st mn ops
+  | OUnmodelled => EUnmod
   end.
 
-Inductive gen_out := GOk (bs : list byte) (d : bool) | GPanic.
+Inductive gen_out := GOk (bs : list byte) (d : bool) | GPanic | GUnmod.
 
 Fixpoint codegen (m : mode) (st : symtab) (dol : Z) (acc : list byte) (d : bool) (os : list ocode) : gen_out :=
   match os with
@@ -382,13 +391,15 @@ Fixpoint codegen (m : mode) (st : symtab) (dol : Z) (acc : list byte) (d : bool)
       | Bytes bs => codegen m st dol (acc ++ bs) d r
       | BytesDiag bs => codegen m st dol (acc ++ bs) true r
       | EPanic => GPanic
+      | EUnmod => GUnmod
       end
   end.
 
 Inductive outcome :=
 | Done (text : list byte) (diagnosed : bool) (final : p1state)
 | Panicked
-| Overflowed.
+| Overflowed
+| Unmodelled.
 
 Definition assemble (p : program) : outcome :=
   let s := pass1 p in
@@ -396,6 +407,7 @@ Definition assemble (p : program) : outcome :=
   match codegen (bmode s) (sym s) (dollar s) [] (diag s) (rev (ocodes s)) with
   | GOk bs d => Done bs d s
   | GPanic => Panicked
+  | GUnmod => Unmodelled
   end.
 
 End Step.
